@@ -1694,7 +1694,7 @@ class InTablePhase(Phase):
 
     # processing methods
     def processEOF(self):
-        if self.tree.openElements[-1].name != "html":
+        if self.tree.openElements[-1].nameTuple != (namespaces["html"], "html"):
             self.parser.parseError("eof-in-table")
         else:
             assert self.parser.innerHTML
